@@ -105,7 +105,9 @@ func (o *Out) Nontrivial(key string) {
 }
 
 func (o *Out) Fail(prop, clause, detail, sig string, ops ...string) {
-	if len(o.Failures) < 200 {
+	// at most 12 failures are kept per clause, so that a frequent (possibly known) finding cannot crowd
+	// out a different one; the distribution below counts all of them
+	if o.Dist["judge-fail:"+prop+":"+clause] < 12 && len(o.Failures) < 600 {
 		f := JudgeFailure{Property: prop, Clause: clause, Detail: detail, Ops: ops, Signature: sig}
 		if len(o.history) > 0 && len(o.Failures) < 20 {
 			f.History = append([]string{o.schemaLine}, o.history...)
